@@ -290,8 +290,8 @@ Definition py_str (v : value) : option str :=
 
 Definition py_repr (v : value) : option str :=
   match v with
-  | PNone | PBool _ | PInt _ _ | PFloat _ _ => py_str v
-  | _ => o_repr orc v
+  | PNone | PBool _ | PInt false _ | PFloat false _ => py_str v
+  | _ => o_repr orc v          (* also instances of int/float subclasses: enum.IntEnum has a repr of its own *)
   end.
 
 Definition type_name (v : value) : str :=
@@ -319,11 +319,45 @@ Definition type_name (v : value) : str :=
   | _ => o_type_name orc v
   end.
 
-(* objtypes.safe_repr *)
-Definition safe_repr (v : value) : str :=
-  match py_repr v with
-  | Some s => s
-  | None => Str "<" ++ type_name v ++ Str ">"
+(* sorted(list of str): insertion sort by code points *)
+Fixpoint str_ltb (a b : str) : bool :=
+  match a, b with
+  | _, [] => false
+  | [], _ :: _ => true
+  | x :: a', y :: b' => (x <? y) || ((x =? y) && str_ltb a' b')
+  end.
+
+Fixpoint str_insert (s : str) (l : list str) : list str :=
+  match l with
+  | [] => [s]
+  | x :: t => if str_ltb x s || str_eqb x s then x :: str_insert s t else s :: l
+  end.
+
+Definition sort_strs (l : list str) : list str := fold_right str_insert [] l.
+
+Fixpoint join_strs (sep : str) (l : list str) : str :=
+  match l with
+  | [] => []
+  | [x] => x
+  | x :: t => x ++ sep ++ join_strs sep t
+  end.
+
+(* objtypes.safe_repr: repr(), "<type>" when that raises; a set lists the safe_repr of its elements in sorted order *)
+Fixpoint safe_repr (v : value) : str :=
+  match v with
+  | PSet [] => Str "set()"
+  | PSet l => Str "{" ++ join_strs (Str ", ") (sort_strs (map safe_repr l)) ++ Str "}"
+  | _ => match py_repr v with
+         | Some s => s
+         | None => Str "<" ++ type_name v ++ Str ">"
+         end
+  end.
+
+(* the alt text BaseColumnType.convert falls back to *)
+Definition alt_text (v : value) : str :=
+  match v with
+  | PSet _ => safe_repr v
+  | _ => match py_str v with Some s => s | None => safe_repr v end
   end.
 
 (* bool(v); None = raises *)
@@ -677,10 +711,7 @@ Definition convert (T : ctype) (v : value) : value :=
   if is_error v then v else
   match do_convert T v with
   | Ok w => w
-  | Raise _ => match py_str v with
-               | Some s => PStr false s
-               | None => PStr false (safe_repr v)
-               end
+  | Raise _ => PStr false (alt_text v)
   end.
 
 Definition is_short_exact_int (v : value) : bool :=
